@@ -2,54 +2,27 @@ package main
 
 import (
 	"fmt"
-	"io"
-	"strings"
 
 	"github.com/freeconf/yang/meta"
+	"github.com/freeconf/yang/node"
+	"github.com/freeconf/yang/nodeutil"
 	"github.com/freeconf/yang/parser"
 )
 
-func try(name string, f func() string) {
-	defer func() {
-		if r := recover(); r != nil {
-			fmt.Printf("%-20s PANIC %v\n", name, r)
-		}
-	}()
-	fmt.Printf("%-20s %s\n", name, f())
-}
-
 func main() {
-	files := map[string]string{
-		"main": `module main { namespace "m"; prefix m; include s1; include s2; }`,
-		"s1":   `submodule s1 { belongs-to main { prefix m; } import x { prefix p; } leaf a { type p:t; } }`,
-		"s2":   `submodule s2 { belongs-to main { prefix m; } import x { prefix p2; } leaf b { type p2:t; } uses p2:g; }`,
-		"x":    `module x { namespace "x"; prefix x; typedef t { type string; } grouping g { leaf gg { type string; } } }`,
+	y := `module m { namespace "urn:m"; prefix m; revision 0; typedef r { type leafref { path "../name"; } } typedef r2 { type r; }
+	container c { leaf name { type int32; } leaf ref { type r; } leaf-list refs { type r2; } } container d { leaf name { type string; } leaf ref { type r; } } }`
+	m, err := parser.LoadModuleFromString(nil, y)
+	fmt.Println(err)
+	if err != nil {
+		return
 	}
-	op := func(n, e string) (io.Reader, error) {
-		if y, ok := files[n]; ok {
-			return strings.NewReader(y), nil
-		}
-		return nil, nil
+	for _, p := range []string{"c/ref", "c/refs", "d/ref"} {
+		t := meta.Find(m, p).(meta.HasType).Type()
+		fmt.Println(p, t.Format(), t.Path(), t.Resolve().Format())
 	}
-	try("D1", func() string { m, err := parser.LoadModule(op, "main"); return fmt.Sprint(m != nil, err) })
-	try("D4", func() string {
-		m, err := parser.LoadModuleFromString(nil, `module main { namespace "m"; prefix m; extension e { argument a; } leaf a { type string; must "1" { m:e "q"; } } }`)
-		if err != nil {
-			return err.Error()
-		}
-		ext := m.DataDefinitions()[0].(*meta.Leaf).Musts()[0].Extensions()[0]
-		return meta.SchemaPath(ext)
-	})
-	try("D5", func() string {
-		m, _ := parser.LoadModuleFromString(nil, `module main { namespace "m"; prefix m; anydata a; }`)
-		return fmt.Sprint(m.DataDefinitions()[0].(meta.HasDefault).DefaultValue())
-	})
-	try("D7", func() string {
-		m, err := parser.LoadModuleFromString(nil, `module main { namespace "m"; prefix m; import x { prefix x; } }`)
-		return fmt.Sprint(m != nil, err)
-	})
-	try("D8", func() string {
-		m, err := parser.LoadModuleFromString(nil, `module main { namespace "m"; prefix m; leaf a { type nosuch; } }`)
-		return fmt.Sprint(m != nil, err)
-	})
+	n, _ := nodeutil.ReadJSON(`{"c":{"name":5,"ref":5,"refs":[1,2]},"d":{"name":"x","ref":"x"}}`)
+	fmt.Println(nodeutil.WriteJSON(node.NewBrowser(m, n).Root()))
+	n2, _ := nodeutil.ReadJSON(`{"c":{"ref":"notanumber"}}`)
+	fmt.Println(nodeutil.WriteJSON(node.NewBrowser(m, n2).Root()))
 }
